@@ -116,6 +116,28 @@ def undocumented_ids(rng, k):
     return out
 
 
+LENGTH_STRATA = [0, 1, 2, 3, 7, 8, 9, 127, 128, 254, 255, 256, 257, 511, 512, 513, 768, 1023, 1024, 4095, 4096, 32767, 32768,
+                 65279, 65280, 65281, 65534, 65535]
+
+
+def strata_frames(ctx, lengths=None):
+    """frames whose payload length sits on a byte / word boundary: undocumented id, INF-NOTICE (CH, any length),
+    MON-VER and NAV-SAT when the length fits their group structure"""
+    rng = ctx.rng
+    out = []
+    for L in (lengths or LENGTH_STRATA):
+        pl = bytes(rng.getrandbits(8) for _ in range(L))
+        out.append((0, b"\x77", b"\x05", pl))
+        out.append((0, b"\x04", b"\x02", bytes(rng.choice(b"abc xyz") for _ in range(L))))
+        out.append((rng.choice([1, 2]), b"\x06", b"\x01", pl))                 # CFG-MSG with a payload of the wrong size
+        if L >= 40 and (L - 40) % 30 == 0:
+            out.append((0, b"\x0a", b"\x04", pl))                               # MON-VER
+        if L >= 8 and (L - 8) % 12 == 0 and (L - 8) // 12 < 256:
+            p = bytearray(pl); p[5] = (L - 8) // 12
+            out.append((0, b"\x01", b"\x35", bytes(p)))                         # NAV-SAT
+    return out
+
+
 # ----------------------------------------------------------------------------- C01
 
 def check_C01(ctx):
@@ -137,10 +159,11 @@ def check_C01(ctx):
         for mode in (0, 1, 2, 3):
             lines.append(f"parse {mode} 1 {rng.choice([0, 1])} {f.hex()}")
             meta.append(("undoc", f))
-    for n in ([65535, 40000] if ctx.tier == "thorough" else [65535]):
-        f = gen.frame(b"\x0a\x04"[:1], b"\x04", bytes(n))
-        lines.append(f"parse 0 1 1 {f.hex()}")
-        meta.append(("long", f))
+    for mode, c, i, pl in strata_frames(ctx):
+        f = gen.frame(c, i, pl)
+        for m_ in {mode, 3}:
+            lines.append(f"parse {m_} 1 {rng.choice([0, 1])} {f.hex()}")
+            meta.append(("strata", f))
     py = do_corr(res, lines)
     samples = []
     for (name, f), a, l in zip(meta, py, lines):
@@ -613,6 +636,9 @@ def check_C04(ctx):
         p = bytes(rng.getrandbits(8) for _ in range(rng.choice([0, 1, 9, 100])))
         lines.append(f"construct {c.hex()} {i.hex()} 0 1 P {canon.hx(p)}")
         meta.append(("payload", dict(mode=0, cls=c, id=i, name="undoc"), None))
+    for mode, c, i, pl in strata_frames(ctx):
+        lines.append(f"construct {c.hex()} {i.hex()} {mode} 1 P {canon.hx(pl)}" if pl else f"construct {c.hex()} {i.hex()} {mode} 1 E")
+        meta.append(("payload", dict(mode=mode, cls=c, id=i, name=f"strata-{c.hex()}{i.hex()}-len{len(pl)}"), None))
     # config helpers
     names = list(ubc.UBX_CONFIG_DATABASE)
     for _ in range(ctx.n(150, 1500)):
@@ -759,6 +785,70 @@ def check_C05(ctx):
             meta.append(("valnone", ent, f, f[:-2] + ck))
         lines.append(f"parse {ent['mode']} 0 1 {canon.hx(f)}")
         meta.append(("valnone-ref", ent, f, f))
+    # well-formed frames on length boundaries: must never be rejected with UBXParseError
+    for mode, c, i, pl in strata_frames(ctx):
+        f = gen.frame(c, i, pl)
+        lines.append(f"parse {mode} 1 1 {canon.hx(f)}")
+        meta.append(("wf-strata", dict(mode=mode, name="strata"), f, f))
+        frames.append((dict(mode=mode, name=f"strata{len(pl)}"), None, f)) if len(pl) in (255, 256, 257, 512, 65280) and c == b"\x77" else None
+    # near-valid inputs: exactly one of the three tests (header, length, checksum) should fail, the other two are
+    # made consistent with the bytes as the parser reads them (checksum recomputed after the edit)
+    def ck_as_parsed(m):
+        """last two bytes that make parse()'s checksum test pass for m[:-2] + ck (ck computed over cls+id+lenb+payload)"""
+        L = len(m)
+        lenb = m[4:6]
+        payload = b"" if lenb == b"\x00\x00" else m[6:max(L - 2, 0)] if L - 2 > 6 else b""
+        return fletcher_ref(m[2:3] + m[3:4] + lenb + payload)
+    for idx, (ent, lay, f) in enumerate(frames[:ctx.n(40, 400)]):
+        n = len(f) - 8
+        for newlen in {(n + 1) & 0xFFFF, (n - 1) & 0xFFFF, (n + 256) & 0xFFFF, (n ^ 0x8000), n & 0xFF, (n + 65536 - 8) & 0xFFFF, 0, 0xFFFF}:
+            if newlen == n:
+                continue
+            g = bytearray(f)
+            g[4:6] = newlen.to_bytes(2, "little")
+            g[-2:] = ck_as_parsed(bytes(g))
+            lines.append(f"parse {ent['mode']} 1 1 {canon.hx(bytes(g))}")
+            meta.append(("len-edit+ck-fixed", ent, f, bytes(g)))
+        g = bytearray(f)
+        g[0] ^= rng.choice([1, 0x80, 0xFF]); lines.append(f"parse {ent['mode']} 1 1 {canon.hx(bytes(g))}"); meta.append(("hdr-edit", ent, f, bytes(g)))
+    # inputs shorter than a frame whose length field aliases the (negative) payload length modulo 2^16 / 2^8, with
+    # the "checksum" bytes (which overlap the header fields) made self-consistent
+    for L in range(4, 8):
+        want = [(L - 8) & 0xFFFF, (L - 8) & 0xFF, 0]
+        for lf in want:
+            lenb = lf.to_bytes(2, "little")
+            found = 0
+            for c in range(256):
+                for i in range(256):
+                    m = (b"\xb5\x62" + bytes([c, i]) + lenb)[:L]
+                    if L == 7:
+                        m = m + b"\x00"
+                    m = bytearray(m)
+                    # iterate the overlapping checksum to a fixed point (at most a few rounds)
+                    for _ in range(4):
+                        ck = ck_as_parsed(bytes(m))
+                        if bytes(m[-2:]) == ck:
+                            break
+                        if L == 7:
+                            m[-1:] = ck[1:]
+                        else:
+                            break
+                    if bytes(m[-2:]) == ck_as_parsed(bytes(m)) and bytes(m[4:6]) == lenb[:len(m[4:6])]:
+                        lines.append(f"parse 0 1 1 {canon.hx(bytes(m))}")
+                        meta.append(("short-aliased", dict(mode=0, name="short"), None, bytes(m)))
+                        found += 1
+                        if found >= 40:
+                            break
+                if found >= 40:
+                    break
+    # insertion of 65536·k bytes that keeps length field (mod 2^16) and checksum consistent
+    for n in (0, 1, 5):
+        for fill in (b"\x00", None):
+            pl = bytes(65536 + n) if fill else bytes(rng.getrandbits(8) for _ in range(65536 + n))
+            body = b"\x06\x01" + n.to_bytes(2, "little") + pl
+            g = b"\xb5\x62" + body + fletcher_ref(body)
+            lines.append(f"parse 0 1 1 {canon.hx(g)}")
+            meta.append(("len-alias-65536", dict(mode=0, name="alias"), None, g))
     # all byte strings up to a small length over a frame-relevant alphabet
     alpha = [0xb5, 0x62, 0x00, 0x01, 0x06, 0xff]
     maxlen = ctx.n(5, 7)
@@ -777,6 +867,8 @@ def check_C05(ctx):
             continue
         if kind == "valnone":
             continue
+        if kind == "wf-strata" and a == "err UBXParseError":
+            res.finding(f"class=well-formed-rejected;len%256={(len(g) - 8) % 256}", "a well-formed frame is rejected with UBXParseError under VALCKSUM", dict(op=l[:200], length=len(g) - 8))
         if a.startswith("ok "):
             res.distinct(g)
             if not wf_frame(g):
@@ -787,6 +879,7 @@ def check_C05(ctx):
             res.finding(f"class=rejected-with-{a[4:]};kind={kind}", "malformed frame rejected with something other than UBXParseError", dict(op=l))
         if len(samples) < 4 and kind != "exhaustive":
             samples.append(dict(kind=kind, op=l[:90], answer=a[:40]))
+    res.coverage["near_valid"] = {k: v for k, v in res.hist.items() if k.split(":")[0] in ("len-edit+ck-fixed", "hdr-edit", "short-aliased", "len-alias-65536")}
     for (kind, ent, f, g), a, l in zip(meta, py, lines):
         if kind == "valnone":
             got = attrs_of(a) if a.startswith("ok ") else a
@@ -1139,6 +1232,10 @@ def check_C08(ctx):
         g = bytes(rng.choice(b"\xb5\x62\x00\x01\x06\x13\xff\x0a\x31") if rng.random() < 0.7 else rng.getrandbits(8) for _ in range(L))
         lines.append(f"parse {rng.choice([0, 1, 2, 3, 3, 4, 9])} {rng.choice([0, 0, 1])} 1 {canon.hx(g)}")
         meta.append(("arbitrary", L))
+    for mode, c, i, pl in strata_frames(ctx):
+        f = gen.frame(c, i, pl)
+        lines.append(f"parse {mode} {rng.choice([0, 1])} {rng.choice([0, 1])} {f.hex()}")
+        meta.append(("strata", len(pl)))
     # very long inputs (beyond what a length field can express)
     for cls, mid in ((b"\x01", b"\x02"), (b"\x77", b"\x00"), (b"\x06", b"\x01"), (b"\x13", b"\x00")):
         for n in (65535, 65536, 70000):
